@@ -1,11 +1,14 @@
 import RQ.Lemmas.PathLemmas
+import RQ.Lemmas.PathAlias
 import RQ.Spec.Push
 /-!
 # C16 — per-patch series options and file-name resolution are honoured consistently
 
 Series lines: `RQ.Series` models `read_series_file`; the lemmas below state its contract in the
 property's words (comments and blank lines ignored, default strip level, `-pN` and `-R` honoured).
-Stripping: `stripPath n` removes exactly `n` leading path components.  File-name resolution:
+Stripping: `stripPath n` removes exactly `n` leading path components, and a leading `./` that is left
+(`dropCur`), so that no stripped name has a `.` component and two spellings of one file (`./x`, `x`) cannot
+be two different names (`C16_no_cur`, `C16_no_alias`).  File-name resolution:
 `choose` (model, over memory + disk) picks the old name iff that file currently exists, else the new
 name, never `/dev/null`; it agrees with `chooseTree` (specification, over the tree) when the memory
 is flushed — that is the part of the refinement used by C05/C09.
@@ -13,10 +16,22 @@ is flushed — that is the part of the refinement used by C05/C09.
 namespace RQ
 open RQ.Series
 
-/-- **stripping removes exactly `n` leading components** (the remaining name has the remaining components) -/
+/-- **stripping removes exactly `n` leading components, and a leading `./` that is left** (the remaining
+name has the remaining components, without a leading `.` component) -/
 theorem C16_strip_components (n : Nat) (raw : Bytes) :
-    components (stripPath n raw) = (components raw).drop n :=
+    components (stripPath n raw) = dropCur ((components raw).drop n) :=
   components_stripPath n raw
+
+/-- a stripped name has no `.` component -/
+theorem C16_no_cur (n : Nat) (raw : Bytes) : Comp.cur ∉ components (stripPath n raw) :=
+  cur_not_mem_stripPath n raw
+
+/-- **no aliases**: two stripped names that denote the same file (same safe key) are the same path
+(`Path == Path` compares components), so one file cannot be two entries of the file cache -/
+theorem C16_no_alias (n m : Nat) (a b : Bytes) (k : Key)
+    (ha : safeKey (stripPath n a) = some k) (hb : safeKey (stripPath m b) = some k) :
+    components (stripPath n a) = components (stripPath m b) :=
+  safeKey_stripPath_inj n m a b k ha hb
 
 /-- comment lines and empty lines of the series file are ignored -/
 theorem C16_comment_ignored (line : Bytes) (h : line = [] ∨ line.head? = some 35) : parseLine line = .ok none := by
@@ -74,6 +89,8 @@ theorem C16_choose_old_iff (m : Push.Mem) (fs : FS) (o n : Bytes) (hne : compone
   | some f => cases hd : f.deleted <;> simp [hd]
 
 #print axioms C16_strip_components
+#print axioms C16_no_cur
+#print axioms C16_no_alias
 #print axioms C16_comment_ignored
 #print axioms C16_default_strip
 #print axioms C16_choose_is_name
